@@ -117,6 +117,9 @@ type vhHostile struct {
 	// JoinCut > 0 (streams): a VALID join request (header, a delta introducing node "ghost" with two entries, a digest) built
 	// with the real encoder, of which only the first JoinCut bytes are sent before the peer closes
 	JoinCut int `json:"joincut"`
+	// Hold (streams): the peer sends Bytes and then neither sends nor closes for 20 s: the handler has to give up at its stream
+	// timeout (3 s here), however little it has received
+	Hold bool `json:"hold"`
 }
 type vhHostileOut struct {
 	Known   int  `json:"known"`    // remote nodes the receiver knows afterwards
@@ -192,6 +195,21 @@ func vhRunHostile(hc vhHostile) (out vhHostileOut) {
 				if hc.JoinCut < len(b) {
 					b = b[:hc.JoinCut]
 				}
+			}
+			if hc.Hold {
+				go func() {
+					_, _ = c1.Write(b)
+					time.Sleep(20 * time.Second)
+					c1.Close()
+				}()
+				me.sl.streamTimeout = 3 * time.Second
+				t0 := time.Now()
+				err := me.sl.handleConn(c2)
+				if time.Since(t0) > 8*time.Second {
+					out.Timeout = true
+				}
+				ch <- res{err: err}
+				return
 			}
 			go func() {
 				_ = c1.SetDeadline(time.Now().Add(2 * time.Second))
